@@ -142,7 +142,7 @@ def scenario(r, style):
 
 
 def gen(r, tier):
-    n = {"quick": 500, "search": 1500, "thorough": 5000}[tier]
+    n = {"quick": 260, "search": 900, "thorough": 4000}[tier]
     cases = []
     while len(cases) < n:
         k = r.random()
@@ -192,8 +192,23 @@ def distribution(cases, outs):
 
 
 MANIFEST = {
-    "text": "filled in below",
-    "note": "",
+    "text": ("Machine-checked proof (Coq) over a model of the entity tree (factory, participants, publishers, "
+             "subscribers, topics, content filtered topics, writers, readers; one step per mail, proxies carry handles "
+             "and, for topics, the name). For ANY state: deleting a participant / publisher / subscriber that still "
+             "contains entities, or a topic used by a reader or writer, returns PreconditionNotMet and the state is "
+             "literally unchanged; every operation whose target is not in the tree returns AlreadyDeleted and changes "
+             "nothing; deleting through the wrong parent fails; delete_contained_entities leaves the participant empty "
+             "and delete_participant then succeeds. For ALL histories (induction over the handle invariant shared with "
+             "C35): the handle of a deleted entity is never issued again, so operations naming it return AlreadyDeleted "
+             "for ever. Two recorded findings bound the claim: content filtered topics are never removed (a "
+             "participant that created one can never be deleted) and topic proxies are resolved by name (the proxy of "
+             "a deleted topic reaches a later topic of the same name). The model is tied to the code by random "
+             "create/delete/operate scenarios on the real stack in the simulator, compared result by result inside "
+             "Coq; a spec-level tracker of live entities is the oracle on the implementation's results."),
+    "note": ("Trusted: Coq kernel + vm_compute; hand model EntityModel.v (checked by the correspondence run); simulator "
+             "harness; the tracker oracle of C36Corr.v. Axioms: none. Not covered: Publisher/Subscriber::"
+             "delete_contained_entities (todo!() in dds_async), built-in topic names. Known findings "
+             "C36-cft-not-contained, C36-topic-proxy-by-name (patches in proposed_fixes/)."),
     "technique": "Coq proof (state-independent step lemmas + invariant by induction over all mail histories) + "
                  "differential correspondence on the simulated stack with a spec-level tracker oracle evaluated in Coq",
 }
